@@ -14,6 +14,13 @@ Tie to the code:
     on synthetic objectives (all sign patterns, zero values, float and numpy scalars, defaults);
   * predicate on the real outputs with oracles that share no code with GHEDesigner (Fractions for the
     volumes and the fit test, closed-form root of the pipe objective, fresh pygfunction objects for R_b).
+    The target R_conv + R_pipe, the volumes and the model's inputs come from `independent_bulk` (the case's own
+    radii, each wall's own conductivity, pygfunction's correlations) - never from what `*_volumes()` returns;
+    `*_volumes()` itself is checked against it.  Known-finding signatures refer to the documented bracket
+    [k_p'/100, 10 k_p'] around the harness's own k_p'.
+  * generator: SDR 7-21, thin-walled (0.6-10 % of the radius: metal / thin plastic) and thick-walled tubing, tube
+    radius 6-40 % of the borehole radius, shank spacing over the whole feasible range, pipe conductivity 0.03-20
+    W/m.K, coaxial inner/outer pipes of different material in 3 of 4 cases (histogram `wall:*`, `coaxial-k:*`).
 """
 from __future__ import annotations
 
@@ -69,9 +76,31 @@ def close(a, b, rel=1e-9, abs_=0.0):
 
 
 # ----------------------------------------------------------------------------------------- generator
+def wall_ratio(rng):
+    """wall thickness / outer radius: SDR 7-21 plastics, thin-walled (metal or thin plastic) tubing, thick walls."""
+    u = rng.random()
+    if u < 0.40:
+        return 2.0 / rng.uniform(7.0, 21.0)
+    if u < 0.85:
+        return 10 ** rng.uniform(math.log10(0.006), math.log10(0.10))
+    return rng.uniform(0.20, 0.45)
+
+
+def pipe_k(rng):
+    """pipe conductivity: plastics 0.1-0.8, insulated 0.03-0.1, enhanced 0.8-3, stainless ~15."""
+    u = rng.random()
+    if u < 0.6:
+        return round(rng.uniform(0.1, 0.8), 3)
+    if u < 0.75:
+        return round(rng.uniform(0.03, 0.1), 4)
+    if u < 0.9:
+        return round(rng.uniform(0.8, 3.0), 3)
+    return round(rng.uniform(10.0, 20.0), 2)
+
+
 def gen_case(rng, i, force_kind=None):
     kind = force_kind or KINDS[i % 4 if i % 11 else rng.randrange(4)]
-    dia = round(rng.choice([rng.uniform(0.09, 0.26), rng.choice([0.11, 0.127, 0.14, 0.15, 0.2])]), 4)
+    dia = round(rng.choice([rng.uniform(0.075, 0.30), rng.uniform(0.09, 0.2), rng.choice([0.11, 0.127, 0.14, 0.15, 0.2])]), 4)
     rb = dia / 2.0
     c = {"kind": kind, "dia": dia, "H": round(rng.uniform(40, 400), 1), "D": round(rng.uniform(0.5, 5.0), 2),
          "fluid": list(rng.choice(FLUIDS)),
@@ -79,22 +108,25 @@ def gen_case(rng, i, force_kind=None):
          "k_g": round(rng.uniform(0.4, 3.0), 3), "k_s": round(rng.uniform(0.5, 5.0), 3),
          "rough": rng.choice([1.0e-6, 1.0e-6, 1.5e-6, 1.0e-5])}
     if kind == "COAXIAL":
-        roo = rb * rng.uniform(0.55, 0.985)
-        roi = roo * (1.0 - 2.0 / rng.uniform(9.0, 21.0))
-        rio = roi * rng.uniform(0.35, 0.8)
-        rii = rio * (1.0 - 2.0 / rng.uniform(7.0, 17.0))
-        c.update(r_inner=[rii, rio], r_outer=[roi, roo], k_p=[round(rng.uniform(0.1, 0.8), 3), round(rng.uniform(0.2, 0.8), 3)])
+        roo = rb * rng.uniform(0.40, 0.985)
+        roi = roo * (1.0 - wall_ratio(rng))
+        rio = roi * rng.uniform(0.25, 0.9)
+        rii = rio * (1.0 - wall_ratio(rng))
+        k_in = pipe_k(rng)
+        # inner and outer pipe of different material in ~3 of 4 cases (insulated inner pipe, enhanced outer pipe, ...)
+        k_out = k_in if rng.random() < 0.25 else pipe_k(rng)
+        c.update(r_inner=[rii, rio], r_outer=[roi, roo], k_p=[k_in, k_out])
     else:
         n_u = 1 if kind == "SINGLEUTUBE" else 2
         if n_u == 2:
-            r_out = rb * rng.uniform(0.12, 0.40)       # four tubes at 90 degrees: r_b >= (1+sqrt2) r_out
+            r_out = rb * rng.uniform(0.06, 0.405)      # four tubes at 90 degrees: r_b >= (1+sqrt2) r_out
             s_min = 2.0 * (math.sqrt(2.0) - 1.0) * r_out * 1.0001
         else:
-            r_out = rb * rng.uniform(0.12, 0.48)
+            r_out = rb * rng.uniform(0.06, 0.48)
             s_min = 0.0
         s_max = 2.0 * (rb - 2.0 * r_out)
-        s = s_min + (s_max - s_min) * rng.uniform(0.02, 0.98)
-        c.update(r_out=r_out, r_in=r_out * (1.0 - 2.0 / rng.uniform(9.0, 17.0)), s=s, k_p=round(rng.uniform(0.2, 0.8), 3))
+        s = s_min + (s_max - s_min) * rng.uniform(0.01, 0.99)
+        c.update(r_out=r_out, r_in=r_out * (1.0 - wall_ratio(rng)), s=s, k_p=pipe_k(rng))
     return c
 
 
@@ -108,6 +140,12 @@ def corpus_cases():
            dict(cx, kind="COAXIAL", flow=0.05, name="F10-low-flow-coaxial"),
            dict(du, kind="DOUBLEUTUBEPARALLEL", flow=0.02, name="laminar-double-u"),
            dict(du, kind="SINGLEUTUBE", flow=0.5, name="single-u-identity"),
+           # thin-walled tubing (0.6 mm wall: the equal-volume wall is 0.85 mm) and different inner/outer pipe materials
+           dict(base, kind="DOUBLEUTUBEPARALLEL", flow=0.5, r_out=0.0312 / 2, r_in=0.0300 / 2, s=0.0200, k_p=0.4, name="thin-wall-30-31.2-double-u"),
+           dict(base, kind="DOUBLEUTUBESERIES", flow=0.4, r_out=0.0272 / 2, r_in=0.0260 / 2, s=0.0250, k_p=15.0, name="thin-wall-stainless-double-u"),
+           dict(cx, kind="COAXIAL", flow=0.8, k_p=[0.1, 0.4], name="coaxial-insulated-inner-pipe"),
+           dict(cx, kind="COAXIAL", flow=0.8, k_p=[0.4, 0.8], name="coaxial-enhanced-outer-pipe"),
+           dict(base, kind="COAXIAL", flow=0.6, r_inner=[0.0200, 0.0206], r_outer=[0.0480, 0.0488], k_p=[0.4, 15.0], name="coaxial-thin-walls"),
            # double U-tube whose equivalent tubes do not fit: 4 r_out*sqrt2 > 2 r_b
            dict(base, kind="DOUBLEUTUBESERIES", flow=0.4, dia=0.11, r_out=0.0215, r_in=0.0176, s=0.0179, k_p=0.4,
                 name="double-u-needs-enlarged-borehole")]
@@ -123,6 +161,35 @@ def corpus_cases():
             except Exception:
                 pass
     return out
+
+
+# ----------------------------------------------------------------------------------------- independent bulk properties
+def independent_bulk(case, fluid_props, m_flow):
+    """(vol_fluid, vol_pipe, R_conv, R_pipe) and the convection coefficient of the original exchanger, computed from the
+    case's own inputs (radii, the two walls' own conductivities) and pygfunction's correlations only - no GHEDesigner code.
+    This is the target the equivalent tube has to reproduce; it is NOT read back from `*_volumes()`."""
+    import pygfunction as gt
+    mu, rho, kf, cp = fluid_props
+    pi = math.pi
+    if case["kind"] == "COAXIAL":
+        rii, rio = case["r_inner"]
+        roi, roo = case["r_outer"]
+        h_a_in, _h_a_out = gt.pipes.convective_heat_transfer_coefficient_concentric_annulus(m_flow, rio, roi, mu, rho, kf, cp, case["rough"])
+        h = float(h_a_in)
+        vol_fluid = pi * (rii ** 2 + roi ** 2 - rio ** 2)
+        vol_pipe = pi * (rio ** 2 - rii ** 2 + roo ** 2 - roi ** 2)
+        r_conv = 1.0 / (h * (2.0 * pi * roi))
+        # conduction through the wall between annulus fluid and grout: the OUTER pipe, with the outer pipe's conductivity
+        r_pipe = math.log(roo / roi) / (2.0 * pi * case["k_p"][1])
+    else:
+        ri, ro, n = case["r_in"], case["r_out"], 4
+        m_pipe = m_flow if case["kind"] == "DOUBLEUTUBESERIES" else m_flow / 2.0
+        h = float(gt.pipes.convective_heat_transfer_coefficient_circular_pipe(m_pipe, ri, mu, rho, kf, cp, case["rough"]))
+        vol_fluid = n * pi * ri ** 2
+        vol_pipe = n * pi * (ro ** 2 - ri ** 2)
+        r_conv = 1.0 / (h * (n * pi * (2.0 * ri) ** 2))      # the code's definition of the combined convective resistance
+        r_pipe = math.log(ro / ri) / (n * 2.0 * pi * case["k_p"])
+    return [vol_fluid, vol_pipe, r_conv, r_pipe], h
 
 
 # ----------------------------------------------------------------------------------------- real code
@@ -153,6 +220,8 @@ def run_impl(case):
         m_flow = case["flow"] / 1000.0 * fluid.rho
         out["fluid"] = [float(fluid.mu), float(fluid.rho), float(fluid.k), float(fluid.cp)]
         out["m_flow"] = float(m_flow)
+        if kind != "SINGLEUTUBE":
+            out["ovols"], out["hf"] = independent_bulk(case, out["fluid"], float(m_flow))
         with ghelib.quiet():
             bhe = B.get_bhe_object(BHPipeType[kind], m_flow, fluid, bh, pipe, grout, soil)
     except Exception as e:  # construction failed: not a C15 matter, reported as a skipped case
@@ -170,11 +239,11 @@ def run_impl(case):
 
     if kind == "COAXIAL":
         vols = bhe.concentric_tube_volumes()
-        out["hf"] = float(bhe.h_f_a_in)
+        out["hf_impl"] = float(bhe.h_f_a_in)
         out["re"] = float(B.CoaxialPipe.compute_reynolds_concentric(m_flow, case["r_inner"][1], case["r_outer"][0], fluid))
     else:
         vols = bhe.u_tube_volumes()
-        out["hf"] = float(bhe.h_f)
+        out["hf_impl"] = float(bhe.h_f)
         out["n_pipes"] = int(bhe.nPipes)
         out["m_flow_pipe"] = float(bhe.m_flow_pipe)
         out["re"] = float(B.GHEDesignerBoreholeBase.compute_reynolds(bhe.m_flow_pipe, case["r_in"], fluid))
@@ -230,7 +299,7 @@ def run_impl(case):
 
     # ---- third-party values the model needs, computed WITHOUT GHEDesigner code (pygfunction only)
     mu, rho, kf, cp = out["fluid"]
-    vf, vp, rc, rp = out["vols"]
+    vf, vp, rc, rp = out["ovols"]          # independent of the implementation
     r_pi = math.sqrt(vf / (2 * math.pi))
     r_po = math.sqrt((vf + vp) / (2 * math.pi))
     out["hf_eq"] = float(gt.pipes.convective_heat_transfer_coefficient_circular_pipe(m_flow, r_pi, mu, rho, kf, cp, case["rough"]))
@@ -481,7 +550,7 @@ def run(ctx: core.Ctx):
         if c["kind"] == "COAXIAL":
             lines.append("et_vol_c " + " ".join(fb(v) for v in [*c["r_inner"], *c["r_outer"], r["hf"], c["k_p"][1]]))
         else:
-            lines.append(f"et_vol_u {r['n_pipes']} " + " ".join(fb(v) for v in [c["r_in"], c["r_out"], r["hf"], c["k_p"]]))
+            lines.append("et_vol_u 2 " + " ".join(fb(v) for v in [c["r_in"], c["r_out"], r["hf"], c["k_p"]]))
     mvols = ctx.driver(lines) if lines else []
 
     def disagree(stream, i, what):
@@ -555,8 +624,20 @@ def run(ctx: core.Ctx):
             ctx.finding("solve_root-call-count", f"to_single made {len(calls)} solve_root calls, expected 2", replay)
             continue
         p, g = calls
-        vf, vp, rc, rp = r["vols"]
+        vf, vp, rc, rp = r["ovols"]         # independent bulk properties of the original (independent_bulk)
         target = rc + rp
+        ctx.count("wall:" + ("equal-volume wall < 1 mm" if orc["r_po"] - orc["r_pi"] < 1e-3 else "equal-volume wall 1-3 mm" if orc["r_po"] - orc["r_pi"] < 3e-3 else "equal-volume wall >= 3 mm"))
+        if c["kind"] == "COAXIAL":
+            q = c["k_p"][0] / c["k_p"][1]
+            ctx.count("coaxial-k:" + ("inner == outer" if q == 1 else "inner < outer/2" if q < 0.5 else "inner > 2 outer" if q > 2 else "within x2"))
+        # (0) what `*_volumes()` hands to the conversion is the exchanger's own bulk properties
+        for name, a, b in zip(("vol_fluid", "vol_pipe", "resist_conv", "resist_pipe"), r["vols"], r["ovols"]):
+            if not close(a, b, 1e-10):
+                fn = "concentric_tube_volumes" if c["kind"] == "COAXIAL" else "u_tube_volumes"
+                ctx.finding(f"{fn}:{name}", f"{fn}() returns {name} = {a!r} but the exchanger's own radii / wall conductivities / convection "
+                            f"coefficient give {b!r} (rel {abs(a - b) / abs(b):.3g})", replay)
+        if c["kind"] != "COAXIAL" and r.get("n_pipes") != 2:
+            ctx.finding("double-u-pipe-count", f"nPipes = {r.get('n_pipes')} for a double U-tube", replay)
 
         # ---------------- correspondence: model (Float instantiation) vs implementation
         if i in model_of:
@@ -641,6 +722,12 @@ def run(ctx: core.Ctx):
         has_root = orc["r_f_eq"] < target
         k_star = orc["c_log"] / (target - orc["r_f_eq"]) if has_root else None
         in_bracket = has_root and p["lower"] <= k_star <= p["upper"]
+        # the bracket the known findings are about is the documented one, [k_p'/100, 10 k_p'] around the harness's own k_p':
+        # a clamp although the root lies inside THAT bracket is not a known finding
+        doc_lo, doc_hi = orc["kp0"] / 100.0, orc["kp0"] * 10.0
+        in_doc_bracket = has_root and doc_lo * (1 + 1e-9) < k_star < doc_hi * (1 - 1e-9)
+        if has_root and len(p["ev"]) == 2 and in_doc_bracket:
+            in_bracket = True      # forces the generic rfp-mismatch report below
         if len(p["ev"]) > 2 and k_star is not None:
             worst["brent_contract"] = max(worst["brent_contract"], abs(p["ev"][-1][0] - k_star) / (1e-6 + 1e-6 * k_star))
         if err > allowed + 1e-12 * target:
